@@ -99,6 +99,12 @@ var (
 	StopWindow   = 40 * time.Second
 )
 
+// portBusy: the node could not listen on its configured address (another process of a parallel run took the
+// port between two life times of the node): trouble of the environment, never a verdict.
+func portBusy(err error) bool {
+	return err != nil && (strings.Contains(err.Error(), "address already in use") || strings.Contains(err.Error(), "failed to listen on any addresses"))
+}
+
 func freePort() int {
 	l, err := net.Listen("tcp", "127.0.0.1:0")
 	if err != nil {
@@ -153,6 +159,9 @@ type Result struct {
 	// could not be started on what the crash left on disk.
 	AggCrashed bool
 	CrashStart string
+	// MaxStarve: the longest a 50 ms sleep of a monitor goroutine overran during the run (how badly the process was
+	// starved of CPU by whatever else runs on the machine).
+	MaxStarve time.Duration
 	// TxStuck: transactions stayed in the execution layer's mempool (never included) over hundreds of blocks, no crash.
 	TxStuck string
 }
@@ -257,6 +266,24 @@ func waitProgress(cond func() bool, progress func() uint64, abort func() bool) (
 // Run executes the scenario. Files go under dir.
 func Run(sc Scenario, dir string) *Result {
 	res := &Result{Sc: sc}
+	monDone := make(chan struct{})
+	var monWG sync.WaitGroup
+	monWG.Add(1)
+	go func() {
+		defer monWG.Done()
+		for {
+			t0 := time.Now()
+			select {
+			case <-monDone:
+				return
+			case <-time.After(50 * time.Millisecond):
+			}
+			if over := time.Since(t0) - 50*time.Millisecond; over > res.MaxStarve {
+				res.MaxStarve = over
+			}
+		}
+	}()
+	defer func() { close(monDone); monWG.Wait() }()
 	root, _ := os.MkdirTemp(dir, "rw")
 	defer os.RemoveAll(root)
 	label := sc.KeyLabel
@@ -440,6 +467,10 @@ func Run(sc Scenario, dir string) *Result {
 		<-a.done
 		a.cancel()
 		a.cancel = nil
+		if portBusy(err) {
+			res.Inconclusive = "the aggregator's listen address was taken by another process while it was down: " + err.Error()
+			return true
+		}
 		if len(a.RunErr) < 12 {
 			a.RunErr = append(a.RunErr, fmt.Sprintf("%v", err))
 		}
@@ -564,6 +595,15 @@ func Run(sc Scenario, dir string) *Result {
 		<-b.done
 		b.cancel()
 		b.cancel = nil
+		if portBusy(err) {
+			// nobody dials the full node: it simply listens elsewhere
+			b.Cfg.P2P.ListenAddress = fmt.Sprintf("/ip4/127.0.0.1/tcp/%d", freePort())
+			streakStart = time.Time{}
+			if !startB() {
+				return true
+			}
+			return false
+		}
 		if len(b.RunErr) < 12 {
 			b.RunErr = append(b.RunErr, fmt.Sprintf("%v", err))
 		}
